@@ -77,6 +77,10 @@ class Scenario:
         hist.sessions.remove(prov)
         await prov.start()
         await prov.cmd(b'CREATE Dest')
+        # the destination is not empty and its UIDs are not the source's: a
+        # roll-back that removes "the same UIDs" must not look right
+        for _ in range(rng.choice([0, 1, 2, 3, 5])):
+            await prov.append(b'Dest')
         for _ in range(self.nmsgs):
             await prov.append(b'INBOX')
         await prov.cmd(b'LOGOUT')
